@@ -561,7 +561,7 @@ def reset_rule(chk, db, fn, k, R, want, paths, succ, full, fview, L, label, wher
             if not lb[0]:
                 why_e.append(lb[1])
             reads = [it for it in fview if it[0] == 'ENC' and it[5].in_loop]
-            if len(reads) != 1:
+            if len(reads) != 1 and not (k.n == 0 and not reads):      # a zero-length array has no iteration at all
                 why_e.append('expected one element read per iteration')
     elif k.kind in ('PAIR', 'TUPLE'):
         reads = [it for it in fview if it[0] == 'ENC'][1:]
@@ -868,7 +868,7 @@ def write_rules_for(chk, db, fn, k, R, want):
             elif k.kind in ('ARR', 'LB'):
                 lb = loop_bound(fn, cnt if k.kind == 'ARR' else cnt, full, whole=cnt, db=db)
                 encs = [it for it in body if it[0] == 'ENC']
-                if len(encs) != 1 or not encs[0][5].in_loop:
+                if (len(encs) != 1 or not encs[0][5].in_loop) and not (k.kind == 'ARR' and k.n == 0 and not encs):
                     why.append('expected one element write per iteration')
                 if k.kind == 'ARR' and not lb[0]:
                     why.append(lb[1])
@@ -1039,7 +1039,7 @@ def size_rules_for(chk, db, fn, k, R, winfo):
                     why.append('accumulates sizes of %s, the writer emits %s' % (sorted(sizes), sorted(wel)))
         elif k.kind in ('ARR', 'LB'):
             sizes = [it for it in view if it[0] == 'SIZE' and it is not (lens[0] if lens else None)]
-            if len(sizes) != 1 or not sizes[0][5].in_loop:
+            if (len(sizes) != 1 or not sizes[0][5].in_loop) and not (k.kind == 'ARR' and k.n == 0 and not sizes):
                 why.append('expected one element Size per iteration')
         chk.decide(not why, R('SZ'), where, '%s: %s' % (label, '; '.join(why) if why else 'prefix + Size(len) + payload, same length expression as the writer'),
                    function=flabel)
@@ -1239,3 +1239,55 @@ def composition(chk, db, rule, methods):
             ok = len(got) == 1 and got == ref
             chk.decide(ok, rule, '%s <%s> %s' % (facts.site(fn), short_t(t), n),
                        'Encoding<%s>::%s delegates to %s (Prefix: %s)' % (short_t(t), n, sorted(got), sorted(ref or [])), function=ir.fn_label(fn))
+
+
+# --------------------------------------------------------------------------- container prefix per kind
+KIND_LABEL = {'STR': 'STR', 'MAP': 'MAP', 'PAIR': 'ARY', 'TUPLE': 'ARY', 'STRUCT': 'STU', 'TABLE': 'TAB', 'VARIANT': 'VAR', 'HANDLE': 'HND'}
+
+
+def prefix_kind(chk, db, rule, methods):
+    """the container prefix of every encoder kind is the documented one: integral element sequences are BIN, other sequences ARY,
+    strings STR, maps MAP, pairs/tuples ARY, structures STU, tables TAB, variants VAR, handles HND - Prefix() returns exactly
+    that byte and Match() accepts exactly that byte (evaluated on all 256 prefix values)"""
+    from . import il, ilrules
+    table, _ = ilrules.doc_table(chk, rule)
+    if table is None:
+        return
+    seen = set()
+    for fn in encoder_instances(db, set(methods)):
+        k = classify(fn)
+        if k is None:
+            continue
+        if k.kind in ('VEC', 'ARR', 'LB'):
+            label = 'BIN' if k.bin else 'ARY'
+        else:
+            label = KIND_LABEL.get(k.kind)
+        if label is None or label not in table:
+            continue
+        key = (fn['recargs'][0], fn['n'])
+        if key in seen:
+            continue
+        seen.add(key)
+        want = table[label][0]
+        where = '%s <%s> %s' % (facts.site(fn), short_t(fn['recargs'][0]), fn['n'])
+        lab = 'Encoding<%s>::%s' % (short_t(fn['recargs'][0]), fn['n'])
+        if fn['n'] == 'Match':
+            try:
+                got = {b for b in range(256) if il.run(db, fn, [b])}
+            except il.Unanalysable as e:
+                chk.unanalysable(rule, where, 'cannot evaluate %s: %s' % (lab, e))
+                continue
+            chk.decide(got == {want}, rule, where, '%s accepts %s, documented container prefix %s (0x%02x)' % (
+                lab, ['0x%02x' % b for b in sorted(got)][:6], label, want), function=ir.fn_label(fn))
+        else:
+            try:
+                paths = paths_of(db, fn)
+            except symx.Unsupported as e:
+                chk.unanalysable(rule, where, str(e))
+                continue
+            vals = set()
+            for p in paths:
+                r = symx.as_poly(p.ret) if p.ret is not None else None
+                vals.add(r.const_value() if r is not None and r.is_const() else repr(p.ret))
+            chk.decide(vals == {want}, rule, where, '%s returns %s, documented container prefix %s (0x%02x)' % (lab, sorted(map(str, vals)), label, want),
+                       function=ir.fn_label(fn))
